@@ -26,7 +26,7 @@ RULES = {
     "R-ID": S.rule_ID, "R-EH": S.rule_EH, "R-CH": S.rule_CH, "R-CD": S.rule_CD,
     "R-VP": W.rule_VP, "R-SH": W.rule_SH, "R-DH": W.rule_DH, "R-L1": W.rule_L1,
     "R-WR": W.rule_WR, "R-RQ": W.rule_RQ, "R-HD": W.rule_HD, "R-MF": W.rule_MF,
-    "R-PL": W.rule_PL, "R-PF": W.rule_PF, "R-GA": W.rule_GA,
+    "R-PL": W.rule_PL, "R-PF": W.rule_PF, "R-GA": W.rule_GA, "R-GS": W.rule_GS, "R-SK": W.rule_SK,
 }
 
 COMMON_ASSUMPTIONS = [
@@ -44,7 +44,7 @@ def _p(rules, explanation, undecided, filters=None, floors=None, extra_assumptio
 
 
 PROPS = {
-    "C01": _p(["R-KC", "R-FP", "R-CP", "R-MC", "R-DC", "R-OA", "R-RK", "R-OS", "R-PO", "R-MX", "R-OP"],
+    "C01": _p(["R-KC", "R-FP", "R-CP", "R-MC", "R-DC", "R-OA", "R-RK", "R-OS", "R-PO", "R-MX", "R-OP", "R-GS"],
               "Decides the key-set mechanism behind cache transparency, not values: every child that any evaluate() path of any of the "
               "node classes consults is keyed on the same path of keys() (through constructed wrapper terms); the fingerprint reads "
               "nothing but sorted keyed pairs; Cached uses one (evaluatable, options, cache) triple for exists/get/set/keys and stores "
@@ -54,14 +54,15 @@ PROPS = {
               "whether stored values equal uncached evaluation for concrete graphs; prefix relations between run-time key strings "
               "(a whole-section key partly supplied by a pre-set dictionary, finding F13); history effects",
               floors={"R-KC": 30, "R-OA": 80}, filters={"R-OP": [":iterates"]}),
-    "C02": _p(["R-FP", "R-PO", "R-OA", "R-DC", "R-EO", "R-CP"],
+    "C02": _p(["R-FP", "R-PO", "R-OA", "R-DC", "R-EO", "R-CP", "R-MC", "R-CW", "R-SK"],
               "Decides the structural conditions for effective memoization: the fingerprint depends on keys(options) only (extra or "
               "re-ordered top-level keys cannot split entries); WithOptions.keys removes keys fixed by the pre-set dictionary; "
               "Computation and Logged sit inside cached() so effects and logging happen only on a miss; the effect runs after the "
               "body with its value; the set handler stores and reads back.",
               "the number of body executions for concrete DAGs, sharing inside one evaluation, behaviour of over-wide key sets",
-              filters={"R-PO": ["WithOptions"], "R-EO": ["Computation", "CallbackEffect", "ChainedEffect"], "R-OA": ["WithOptions", "Cached", "Dataset"]}),
-    "C03": _p(["R-PO", "R-FP", "R-KC", "R-DK", "R-RK"],
+              filters={"R-PO": ["WithOptions"], "R-EO": ["Computation", "CallbackEffect", "ChainedEffect"], "R-OA": ["WithOptions", "Cached", "Dataset"],
+                       "R-MC": ["MemoryCache"], "R-CW": ["Dataset.overload"]}),
+    "C03": _p(["R-PO", "R-FP", "R-KC", "R-DK", "R-RK", "R-MF"],
               "Decides: every component of every keys() result is a child's keys, an empty set, a literal key guarded by "
               "dotted_key_exists, or a filtered subset (WithOptions filter checked as a propositional formula on all 8 assignments); "
               "the fingerprint is a deterministic function of the sorted keyed pairs (no hash/id/set-order/environment dependence); "
@@ -81,52 +82,54 @@ PROPS = {
               "coalesce returns at the first member that validates and evaluates; collections and the Map product iterate in stored "
               "order from one mapping; Apply/Bind/FunctionApplication apply the function to the evaluated parts.",
               "value equality with a reference interpreter for arbitrary expression trees (most of the property)",
-              filters={"R-MX": ["Map._iter"], "R-CD": ["Switch", "Coalesce"]}),
-    "C06": _p(["R-CL", "R-SL", "R-AB", "R-EO", "R-EV"],
+              filters={"R-MX": ["Map._iter", "WithOptions._options"], "R-CD": ["Switch", "Coalesce", "CaseWhen", "user callable"]}),
+    "C06": _p(["R-CL", "R-SL", "R-AB", "R-EO", "R-EV", "R-SO"],
               "Decides: no evaluation op is reachable from construction/decoration/registration code (whole-program reachability "
               "over resolved callees); unselected switch/case/coalesce branches never receive an op; the default is touched only when "
               "the key is absent; the source of >> is evaluated before the function; inspection methods evaluate selectors only.",
-              "which bodies actually ran for a given dictionary"),
-    "C07": _p(["R-RG", "R-LB", "R-KC", "R-DC", "R-CC", "R-ID", "R-CW", "R-SO"],
+              "which bodies actually ran for a given dictionary",
+              filters={"R-SO": ["Coalesce", "CaseWhen"]}),
+    "C07": _p(["R-RG", "R-LB", "R-KC", "R-DC", "R-CC", "R-ID", "R-CW", "R-SO", "R-CD", "R-LS"],
               "Decides: an implementation registers nothing before all rejections are decided; the overload switch is rebuilt from "
               "the live table on every use; the dispatch is keyed on every successful-dispatch path; the callback is applied outside "
               "the switch; derivatives share overloads and cache by reference; every interface member receives the interface's "
               "dispatch; the overload table is replaced, never mutated.",
               "which implementation a given dictionary selects; cross-member consistency of values",
               filters={"R-KC": ["Switch", "Overloaded", "_DependsOn", "Dataset"], "R-CC": ["Dataset(", "Overloaded("], "R-SO": ["Switch"],
-                       "R-DC": ["callback", "delegates"]}),
-    "C08": _p(["R-MX", "R-OA", "R-DC", "R-CC", "R-PU"],
+                       "R-DC": ["callback", "delegates"], "R-CD": ["Switch"], "R-LS": ["Overloaded", "_LOCKS"]}),
+    "C08": _p(["R-MX", "R-OA", "R-DC", "R-CC", "R-PU", "R-PO"],
               "Decides: WithOptions mixes the pre-set dictionary as the winning ingredient exactly when forced; all four ops see the "
               "mixed dictionary; dataset decorator options end in the same wrappers in the right nesting; with_options / "
               "with_default_options mix new over stored and carry every other field; no function mutates an options dictionary it did "
               "not allocate.",
               "merge semantics of confectioner.mix itself; F13",
-              filters={"R-CC": ["Dataset("], "R-OA": ["WithOptions", "Dataset", "Map"]}),
-    "C09": _p(["R-TK", "R-KC", "R-RK", "R-CH"],
+              filters={"R-CC": ["Dataset("], "R-OA": ["WithOptions", "Dataset", "Map"], "R-PO": ["WithOptions"]}),
+    "C09": _p(["R-TK", "R-KC", "R-RK", "R-CH", "R-GS"],
               "Decides: Template.keys/explain/validate iterate the same key source as evaluate resolves, skip exactly the :param: "
               "keys, delegate every other key to Option(key).<same op> (transitivity), and visit all params; Option.keys/explain "
               "inspect every container kind whose embedded references resolve() follows; KeyError translations are chained.",
               "the substituted text",
-              filters={"R-KC": ["Template", "Option"], "R-CH": ["Template", "Option"]}),
-    "C10": _p(["R-VA", "R-KC", "R-OA", "R-CP", "R-EV", "R-SL", "R-OP"],
+              filters={"R-KC": ["Template", "Option"], "R-CH": ["Template", "Option"], "R-GS": ["labrea.template", "labrea.option"]}),
+    "C10": _p(["R-VA", "R-KC", "R-OA", "R-CP", "R-EV", "R-SL", "R-OP", "R-SH"],
               "Decides: for every node class, every evaluate path's children are covered by one validate path; the same children are "
               "keyed; the same options form is passed; Cached.validate skips only on exists; inspection evaluates selectors only; "
               "unselected branches are not validated.",
               "agreement for a particular dictionary when it hinges on values",
-              filters={"R-CP": ["validate"], "R-OP": [":iterates"]}),
+              filters={"R-CP": ["validate"], "R-OP": [":iterates"], "R-SH": ["labrea.cache."]}),
     "C11": _p(["R-XA", "R-EG", "R-OA", "R-EV", "R-TK", "R-OP"],
               "Decides: every child keyed or validated is explained, path by path for equal selections; every evaluate/validate "
               "reached from an explain method lies inside a try that catches EvaluationError and raises "
               "InsufficientInformationError from it or falls back statically.",
               "the iterative fill-until-valid behaviour on concrete dictionaries",
               filters={"R-TK": ["explain"], "R-OP": [":iterates"]}),
-    "C12": _p(["R-EH", "R-CH", "R-CD", "R-KN", "R-CP", "R-MC", "R-WR"],
+    "C12": _p(["R-EH", "R-CH", "R-CD", "R-KN", "R-CP", "R-MC", "R-WR", "R-DC", "R-GS"],
               "Decides: the default evaluate handler wraps every exception into EvaluationError(source = this object) chained with "
               "`from`, re-raising its own; all raises inside handlers are chained; only documented fall-through points catch "
               "EvaluationError and nothing else catches Exception; the only path into the memo dictionary is CacheSetRequest built in "
               "Cached.evaluate from a successful inner evaluation.",
               "the concrete cause chain for a given graph; outcomes of later evaluations",
-              filters={"R-CP": ["store-after-compute"], "R-MC": ["writes", "constructs", "calls Cache.set"], "R-WR": ["__init_subclass__", "_evaluate_request", "directly"]}),
+              filters={"R-CP": ["store-after-compute"], "R-MC": ["writes", "constructs", "calls Cache.set"], "R-WR": ["__init_subclass__", "_evaluate_request", "directly"],
+                       "R-DC": ["cache layer", "cached"]}),
     "C13": _p(["R-HO", "R-HF", "R-PI", "R-KC", "R-XA", "R-EO"],
               "Decides: the operand order of each helper step by symbolic beta-reduction of partial(f, …) against the documented "
               "behaviour; every option-valued helper parameter is handed to the step as an evaluated argument, not captured; "
@@ -148,25 +151,25 @@ PROPS = {
               "state of shared runtime objects is per thread; cache entries addressed by fingerprint in all three operations.",
               "behaviour under interleavings — no schedule is explored (most of the property)",
               filters={"R-MC": ["key-is-fingerprint"]}),
-    "C16": _p(["R-VP", "R-SH", "R-DH", "R-L1", "R-DC", "R-RQ"],
+    "C16": _p(["R-VP", "R-SH", "R-DH", "R-L1", "R-DC", "R-RQ", "R-HI", "R-SK"],
               "Decides: no data flow from a switch, an effect result or a log result into any returned value; the three cache "
               "handlers test both switch spellings first and delegate to disabled twins that touch no backend; the effects switch "
               "selects between two terms containing the same calculation; exactly one log request per Logged.evaluate path, Logged "
               "inside cached.",
               "observed counts of recomputation and emitted records",
-              filters={"R-DC": ["effects", "calculation", "Logged"]}),
+              filters={"R-DC": ["effects", "calculation", "Logged"], "R-HI": ["handle", "disabled"]}),
     "C17": _p(["R-CE", "R-CP"],
               "Decides: CacheGetFailure cannot escape Cached.evaluate/validate, Cache.exists or the set/exists handlers through any "
               "resolved call chain; every return of Cached.evaluate is the retrieved, the stored-and-read-back or the freshly "
               "computed value; a failed get falls through to the computation; the set handler falls back to request.value.",
               "backends that violate the Cache contract in other ways (other exception types)"),
-    "C18": _p(["R-WR", "R-RQ", "R-HD", "R-MP", "R-L1"],
+    "C18": _p(["R-WR", "R-RQ", "R-HD", "R-MP", "R-L1", "R-HI"],
               "Decides nearly the whole mechanism: the four ABC hooks replace every op by a request-issuing wrapper and the default "
               "handlers call the saved implementation; nothing else calls the saved implementations; every concrete class defines "
               "plain methods; cache/log/type-check sites go through XRequest(...).run(); backends are called only by handlers; every "
               "request type has a default handler.",
               "third-party subclasses; that a pass-through handler changes no value",
-              filters={"R-MP": ["type request"]}),
+              filters={"R-MP": ["type request"], "R-HI": ["handle", "disabled"]}),
     "C19": _p(["R-DK", "R-MF", "R-KC", "R-VA", "R-XA"],
               "Decides: relevant options are read with dotted accessors; validate/keys/explain/instantiation enumerate members with "
               "the same source and predicate; __eq__ and __repr__ read the recorded relevant options; members are children for key "
